@@ -61,7 +61,12 @@ func EnvVariable(name string, value any) opts.EvaluateOption {
 func validateType(input any) error {
 	var err error
 	switch v := input.(type) {
-	case fhir.Base, system.Any:
+	case fhir.Base:
+		// A typed nil pointer (var s *dtpb.String) is not an element.
+		if !v.ProtoReflect().IsValid() {
+			err = fmt.Errorf("%w: nil %T", ErrUnsupportedType, input)
+		}
+	case system.Any:
 		break
 	case system.Collection:
 		for _, elem := range v {
